@@ -7,6 +7,8 @@ open Pox Pox.Proto Pox.Packet Pox.Parse
   {"op":"parse","raw":hex,"cfg":"repaired"|"head","d":n (optional nesting budget; default = Parse.budget raw)}
      → {"exc":"<Python exception class>"}                                  when ethernet(raw=…) raises in the model
      → {"chain":[layer,…,terminal],"foreign":bool,"pack":hex|{"exc":…}|null,"print":"ok"|{"exc":…}|null}
+        ("core":true in the request adds "core": the same answer of the phase-1 model Cfg.core; "known":"K9" … names the finding
+         at which the model raises)
         layer    = {"k":class,"parsed":bool,"raw":hex, attributes…}   (no "raw" for icmp: icmp.parse does not keep it)
         terminal = {"k":"none"} | {"k":"bytes","data":hex} | {"k":"foreign","cls":…,"raw":hex}
         pack / print are null when the chain ends in a foreign layer (outside the model)
@@ -127,6 +129,21 @@ def knownJ (e : PErr) : List (String × J) :=
   | .known st => [("known", J.str st.name)]
   | _ => []
 
+def answer (cfg : Cfg) (d : Nat) (raw : Bytes) : J :=
+  match parseEthernet cfg d raw with
+  | .error e => J.mk ([("exc", J.str e.toString)] ++ knownJ e)
+  | .ok f =>
+    if f.hasForeign then
+      J.mk [("chain", J.arr (chainJ f)), ("foreign", J.bool true), ("pack", J.null), ("print", J.null)]
+    else
+      let pk := match packF none f with
+        | .ok b => J.ofBytes b
+        | .error e => excJ e.toString
+      let pr := match printF cfg f with
+        | .ok _ => J.str "ok"
+        | .error e => excJ e.toString
+      J.mk [("chain", J.arr (chainJ f)), ("foreign", J.bool false), ("pack", pk), ("print", pr)]
+
 def handle (j : J) : Except String J := do
   let op ← j.string "op"
   if op = "parse" then
@@ -137,19 +154,14 @@ def handle (j : J) : Except String J := do
     let d := match ← j.optNat "d" with
       | some d => d
       | none => budget raw
-    match parseEthernet cfg d raw with
-    | .error e => pure (J.mk ([("exc", J.str e.toString)] ++ knownJ e))
-    | .ok f =>
-      if f.hasForeign then
-        pure (J.mk [("chain", J.arr (chainJ f)), ("foreign", J.bool true), ("pack", J.null), ("print", J.null)])
-      else
-        let pk := match packF none f with
-          | .ok b => J.ofBytes b
-          | .error e => excJ e.toString
-        let pr := match printF cfg f with
-          | .ok _ => J.str "ok"
-          | .error e => excJ e.toString
-        pure (J.mk [("chain", J.arr (chainJ f)), ("foreign", J.bool false), ("pack", pk), ("print", pr)])
+    let a := answer cfg d raw
+    -- "core": true → also the answer of the phase-1 model (`Cfg.core`, the one `refines_c14` relates to C14's parser)
+    match j.get? "core" with
+    | some (J.bool true) =>
+      match a with
+      | J.obj kv => pure (J.obj (kv ++ [("core", answer Cfg.core d raw)]))
+      | other => pure other
+    | _ => pure a
   else throw s!"unknown op {op}"
 
 def main : IO Unit := serve handle
